@@ -148,6 +148,7 @@ def _mods():
 
 
 _TAB = {}
+BRANCH = collections.Counter()   # which label branches / boundary coincidences the valid streams actually hit
 
 
 def tab_class():
@@ -184,6 +185,27 @@ def tab_class():
     return _TAB['c']
 
 
+# documented default arguments (signatures / docstrings of the encoder classes); a configuration whose trailing
+# arguments equal them is constructed WITHOUT those arguments, so that the defaults themselves are exercised
+# (the model always gets the explicit values)
+LOOKBACK_DEFAULTS = [[16, 32], 5]          # LookbackEventSequenceEncoderDecoder(oh, lookback_distances=None -> [16, 32], 5)
+KEYMELODY_DEFAULTS = [[16, 32], 7]         # KeyMelodyEncoderDecoder(min, max, lookback_distances=None -> [16, 32], 7)
+PERF_ONEHOT_DEFAULTS = [0, 100, 0, 127]    # PerformanceOneHotEncoding(num_velocity_bins, max_shift_steps, min_pitch, max_pitch)
+MODULO_DEFAULTS = [0, 100]                 # ModuloPerformanceEventSequenceEncoderDecoder(num_velocity_bins, max_shift_steps)
+NOTEPERF_DEFAULTS = [1000, 1000, 0, 127]   # NotePerformance…(num_velocity_bins, max_shift_steps, max_duration_steps, min_pitch, max_pitch)
+PIANOROLL_DEFAULTS = [88]                  # PianorollEncoderDecoder(input_size)
+
+
+def ctor(cls, first, args, defaults):
+    args, d = [list(a) if isinstance(a, (list, tuple)) else a for a in args], list(defaults)
+    while d and args and args[-1] == d[-1]:
+        args.pop()
+        d.pop()
+    if len(d) < len(defaults):
+        BRANCH['constructed-with-default-arguments'] += 1
+    return cls(*(list(first) + args))
+
+
 def make_onehot(spec):
     ed, med, pl, ped, pred = _mods()
     if spec[0] == 'tab':
@@ -191,8 +213,24 @@ def make_onehot(spec):
     if spec[0] == 'mel':
         return med.MelodyOneHotEncoding(spec[1], spec[2])
     if spec[0] == 'perf':
-        return ped.PerformanceOneHotEncoding(spec[1], spec[2], spec[3], spec[4])
+        return ctor(ped.PerformanceOneHotEncoding, [], spec[1:5], PERF_ONEHOT_DEFAULTS)
     raise ValueError(spec)
+
+
+def make_key(mn, mx, ds, bits):
+    return ctor(_mods()[1].KeyMelodyEncoderDecoder, [mn, mx], [list(ds), bits], KEYMELODY_DEFAULTS)
+
+
+def make_np(bins, ms, md, lo, hi):
+    return ctor(_mods()[3].NotePerformanceEventSequenceEncoderDecoder, [bins], [ms, md, lo, hi], NOTEPERF_DEFAULTS)
+
+
+def make_pr(n):
+    return ctor(_mods()[4].PianorollEncoderDecoder, [], [n], PIANOROLL_DEFAULTS)
+
+
+def make_mod(bins, ms):
+    return ctor(_mods()[3].ModuloPerformanceEventSequenceEncoderDecoder, [], [bins, ms], MODULO_DEFAULTS)
 
 
 def make_generic(onehot, kind):
@@ -202,7 +240,7 @@ def make_generic(onehot, kind):
         return ed.OneHotEventSequenceEncoderDecoder(oh)
     if kind[0] == 'ohi':
         return ed.OneHotIndexEventSequenceEncoderDecoder(oh)
-    return ed.LookbackEventSequenceEncoderDecoder(oh, list(kind[1]), kind[2])
+    return ctor(ed.LookbackEventSequenceEncoderDecoder, [oh], [list(kind[1]), kind[2]], LOOKBACK_DEFAULTS)
 
 
 def to_events(onehot, evs):
@@ -306,7 +344,6 @@ class Bad(Exception):
     pass
 
 
-BRANCH = collections.Counter()   # which label branches / boundary coincidences the valid streams actually hit
 
 
 def note_branch(ds, evs, p, m, virtual):
@@ -352,6 +389,7 @@ def oracle_generic(case):
     evs = to_events(onehot, case['events'])
     nc, isz, n1 = enc.num_classes, enc.input_size, oh.num_classes
     ds = list(kind[1]) if kind[0] == 'lb' else []
+    need(nc >= n1 + len(ds), 'num_classes = %d: too few for %d event classes and %d lookbacks' % (nc, n1, len(ds)))
     for p in range(len(evs)):
         lab = enc.events_to_label(evs, p)
         need(isinstance(lab, int) and 0 <= lab < nc, 'label %r of position %d outside [0,%d)' % (lab, p, nc))
@@ -411,9 +449,10 @@ def oracle_generic(case):
 def oracle_key(case):
     ed, med, pl, ped, pred = _mods()
     mn, mx, ds, bits = case['cfg']
-    enc = med.KeyMelodyEncoderDecoder(mn, mx, list(ds), bits)
+    enc = make_key(mn, mx, ds, bits)
     evs = list(case['events'])
     nc, isz, rng_ = enc.num_classes, enc.input_size, mx - mn
+    need(nc >= rng_ + 2 + len(ds), 'num_classes = %d: too few for %d pitches, no-event, note-off and %d lookbacks' % (nc, rng_, len(ds)))
 
     def plain(e):
         return rng_ + 1 if e == -1 else rng_ if e == -2 else e - mn
@@ -448,7 +487,7 @@ def np_events(pl, evs):
 def oracle_np(case):
     ed, med, pl, ped, pred = _mods()
     bins, ms, md, lo, hi = case['cfg']
-    enc = ped.NotePerformanceEventSequenceEncoderDecoder(bins, ms, md, lo, hi)
+    enc = make_np(bins, ms, md, lo, hi)
     need(enc.shift_steps_segments * enc.shift_steps_per_segment == ms + 1
          and enc.duration_steps_segments * enc.duration_steps_per_segment == md, 'segments x per-segment != steps')
     evs = np_events(pl, case['events'])
@@ -465,6 +504,10 @@ def oracle_np(case):
         for k, n in enumerate(ncs):
             need(one_hot_block(v, off, n, 'block %d' % k) == lab[k], 'position %d: block %d' % (p, k))
             off += n
+    # every event of the configuration needs a class: shifts 0..max_shift, pitches min_pitch..max_pitch (both ends),
+    # velocity bins 1..bins, durations 1..max_duration
+    need(len(ncs) == 6 and ncs[0] * ncs[1] >= ms + 1 and ncs[2] >= hi - lo + 1 and ncs[3] >= bins and ncs[4] * ncs[5] >= md,
+         'num_classes %r has too few classes for shifts 0..%d / pitches %d..%d / %d velocity bins / durations 1..%d' % (list(ncs), ms, lo, hi, bins, md))
     ins, labs = enc.encode(evs)
     need(len(ins) == len(labs) == max(len(evs) - 1, 0), 'encode returned %d pairs for %d events' % (len(ins), len(evs)))
     for i in range(len(ins)):
@@ -481,8 +524,9 @@ def oracle_np(case):
 def oracle_pr(case):
     ed, med, pl, ped, pred = _mods()
     n = case['n']
-    enc = pred.PianorollEncoderDecoder(n)
+    enc = make_pr(n)
     evs = [tuple(e) for e in case['events']]
+    need(enc.input_size == n and enc.num_classes >= 2 ** n, 'input_size %r / num_classes %r for %d keys' % (enc.input_size, enc.num_classes, n))
     for p in range(len(evs)):
         lab = enc.events_to_label(evs, p)
         need(0 <= lab < enc.num_classes, 'label %r outside [0, 2^%d)' % (lab, n))
@@ -503,9 +547,10 @@ def oracle_pr(case):
 def oracle_mod(case):
     ed, med, pl, ped, pred = _mods()
     bins, ms = case['cfg']
-    enc = ped.ModuloPerformanceEventSequenceEncoderDecoder(bins, ms)
+    enc = make_mod(bins, ms)
     PE = pl.PerformanceEvent
     evs = [PE(t, v) for (t, v) in case['events']]
+    need(enc.num_classes >= 256 + ms + bins, 'num_classes = %d: too few for 128 note-ons, 128 note-offs, %d shifts, %d velocity bins' % (enc.num_classes, ms, bins))
     for p in range(len(evs)):
         lab = enc.events_to_label(evs, p)
         need(0 <= lab < enc.num_classes, 'label %r outside [0,%d)' % (lab, enc.num_classes))
@@ -541,6 +586,8 @@ def rand_dists(rng, maxd=12):
     k = rng.random()
     if k < 0.08:
         return []
+    if k > 0.93:
+        return [16, 32]                                                  # the documented default distances
     n = rng.choice([1, 1, 2, 2, 2, 3, 4])
     if k < 0.2:
         ds = [rng.randrange(1, maxd + 1) for _ in range(n)]          # duplicates allowed
@@ -570,6 +617,44 @@ def rand_seq(rng, alphabet, default, ds, n):
     return evs
 
 
+def rr(rng, n):
+    """randrange that survives a class count of 0 (a mis-sized block must reach the oracle, not crash the generator)"""
+    return rng.randrange(n) if n > 0 else 0
+
+
+def edgy(rng, lo, hi):
+    """a value of [lo, hi]: each end with probability 1/3"""
+    return rng.choice([lo, hi, rng.randint(lo, hi)]) if lo <= hi else lo
+
+
+MAJOR_SCALE = (0, 2, 4, 5, 7, 9, 11)
+
+
+def key_pitches(rng, mn, mx, key):
+    """the pitches of [mn, mx) that belong to the major scale of `key` (so that the key blocks of the key-melody
+    input single out that key), both range ends first when they belong"""
+    pcs = {(key + d) % 12 for d in MAJOR_SCALE}
+    return [p for p in range(mn, mx) if p % 12 in pcs]
+
+
+def pr_event(rng, n):
+    """a pianoroll frame over keys 0..n-1: the lowest / highest key are often down, sometimes every key"""
+    if not n:
+        return []
+    k = rng.random()
+    if k > 0.95:
+        return list(range(n))
+    ev = set(rng.sample(range(n), rng.randrange(0, min(n, 6) + 1)))
+    if k < 0.4:
+        ev.add(n - 1)
+    if 0.25 < k < 0.6:
+        ev.add(0)
+    return sorted(ev)
+
+
+PR_SIZES = [0, 1, 2, 5, 8, 12, 63, 64, 65, 88, 88, 128]
+
+
 def rand_len(rng):
     return rng.choice([0, 1, 2, 3, 5, 8, 13, 20, 40, 100, rng.randrange(0, 101)])
 
@@ -589,9 +674,9 @@ def rand_onehot(rng):
         pitches = rng.sample(range(mn, mx), min(mx - mn, rng.choice([1, 2, 4])))
         return ['mel', mn, mx], [-2, -1] + pitches + [mn, mx - 1], -2
     bins = rng.choice([0, 0, 1, 8, 32, 127])
-    ms = rng.choice([1, 2, 10, 100])
-    lo = rng.choice([0, 21, 60])
-    hi = rng.choice([lo, lo + 5, 108, 127])
+    ms = rng.choice([1, 2, 10, 100, 100])
+    lo = rng.choice([0, 0, 21, 60, 127])
+    hi = min(127, max(lo, rng.choice([lo, lo + 5, 108, 127, 127])))
     alpha = [(1, lo), (1, hi), (2, lo), (2, hi), (3, 1), (3, ms)] + ([(4, 1), (4, bins)] if bins else [])
     return ['perf', bins, ms, lo, hi], alpha, (3, ms)
 
@@ -602,7 +687,7 @@ def rand_kind(rng):
         return ['oh']
     if k < 0.25:
         return ['ohi']
-    return ['lb', rand_dists(rng), rng.choice([0, 1, 3, 5, 7])]
+    return ['lb', rand_dists(rng), rng.choice([0, 1, 3, 5, 5, 7])]
 
 
 def rand_generic(rng, with_labels=True):
@@ -614,7 +699,7 @@ def rand_generic(rng, with_labels=True):
     if with_labels:
         nc = make_generic(oh, kind).num_classes
         n1 = nc - len(ds)
-        case['labels'] = [rng.randrange(n1, nc) if (ds and rng.random() < 0.5) else rng.randrange(nc)
+        case['labels'] = [rng.randrange(n1, nc) if (ds and n1 < nc and rng.random() < 0.5) else rng.choice([0, nc - 1, rr(rng, nc), rr(rng, nc)])
                           for _ in range(rng.choice([0, 1, 2, 5, 20, 60]))]
     return case
 
@@ -647,7 +732,7 @@ def generic_requests(case, ops=('all', 'encode', 'sizes', 'gen')):
 def key_requests(case, ops=('all', 'encode', 'sizes', 'gen')):
     med = _mods()[1]
     mn, mx, ds, bits = case['cfg']
-    enc = med.KeyMelodyEncoderDecoder(mn, mx, list(ds), bits)
+    enc = make_key(mn, mx, ds, bits)
     evs = list(case['events'])
     spec = 'key %d %d %s %d' % (mn, mx, wl(ds), bits)
     out = []
@@ -677,7 +762,7 @@ def np_requests(case):
     bins, ms, md, lo, hi = case['cfg']
     spec = 'np %d %d %d %d %d' % (bins, ms, md, lo, hi)
     try:
-        enc = ped.NotePerformanceEventSequenceEncoderDecoder(bins, ms, md, lo, hi)
+        enc = make_np(bins, ms, md, lo, hi)
     except Exception as e:  # pylint: disable=broad-except
         return [(spec + ' init', '!' + type(e).__name__)]
     out = [(spec + ' init', '%d %d %d %d %s %d' % (enc.shift_steps_segments, enc.shift_steps_per_segment, enc.duration_steps_segments,
@@ -707,7 +792,7 @@ def sh_tuple(e):
 def pr_requests(case):
     pred = _mods()[4]
     n = case['n']
-    enc = pred.PianorollEncoderDecoder(n)
+    enc = make_pr(n)
     spec = 'pr %d' % n
     evs = [tuple(e) for e in case['events']]
     evw = ' '.join([str(len(evs))] + [wl(e) for e in evs])
@@ -757,7 +842,7 @@ def mod_cells(enc, v):
 def mod_requests(case):
     ed, med, pl, ped, pred = _mods()
     bins, ms = case['cfg']
-    enc = ped.ModuloPerformanceEventSequenceEncoderDecoder(bins, ms)
+    enc = make_mod(bins, ms)
     PE = pl.PerformanceEvent
     evs = [PE(t, v) for (t, v) in case['events']]
     spec = 'mod %d %d' % (bins, ms)
@@ -779,11 +864,15 @@ def rand_key(rng):
     mn = rng.choice([0, 1, 48, 60, rng.randrange(0, 120)])
     mx = min(128, max(mn + 1, rng.choice([mn + 1, mn + 12, mn + 36, 128, rng.randrange(mn + 1, 129)])))
     ds = rand_dists(rng)
-    bits = rng.choice([0, 1, 4, 7])
+    bits = rng.choice([0, 1, 4, 7, 7])
     pitches = rng.sample(range(mn, mx), min(mx - mn, rng.choice([1, 3, 6]))) + [mn, mx - 1]
+    if rng.random() < 0.4:      # a melody inside one major key: 0, 11 or any (the key blocks of the input)
+        inkey = key_pitches(rng, mn, mx, rng.choice([0, 11, rng.randrange(12)]))
+        if inkey:
+            pitches = rng.sample(inkey, min(len(inkey), rng.choice([2, 4, 7]))) + [inkey[0], inkey[-1]]
     evs = rand_seq(rng, [-2, -1, -1] + pitches * 2, -2, ds, rand_len(rng))
     nc = mx - mn + 2 + len(ds)
-    labels = [rng.randrange(nc - len(ds), nc) if (ds and rng.random() < 0.5) else rng.randrange(nc)
+    labels = [rng.randrange(nc - len(ds), nc) if (ds and rng.random() < 0.5) else rng.choice([0, mx - mn - 1, nc - 1, rng.randrange(nc), rng.randrange(nc)])
               for _ in range(rng.choice([0, 1, 3, 10, 40]))]
     return {'family': 'key', 'cfg': [mn, mx, ds, bits], 'events': evs, 'labels': labels}
 
@@ -798,32 +887,32 @@ def composite(rng, lo=4, hi=1200):
 def rand_np(rng):
     ms, md = composite(rng) - 1, composite(rng)
     bins = rng.choice([1, 2, 8, 32, 127])
-    lo = rng.choice([0, 21, 60])
-    hi = rng.choice([lo, lo + 11, 108, 127])
+    lo = rng.choice([0, 0, 21, 60, 127])
+    hi = rng.choice([lo, lo + 11, 108, 127, 127])
     hi = max(lo, min(hi, 127))
 
     def ev():
-        return [rng.choice([0, ms, rng.randrange(0, ms + 1)]), rng.choice([lo, hi, rng.randrange(lo, hi + 1)]),
-                rng.choice([1, bins, rng.randrange(1, bins + 1)]), rng.choice([1, md, rng.randrange(1, md + 1)])]
+        return [edgy(rng, 0, ms), edgy(rng, lo, hi), edgy(rng, 1, bins), edgy(rng, 1, md)]
     evs = [ev() for _ in range(rng.choice([0, 1, 2, 5, 12]))]
+    if evs and rng.random() < 0.5:     # every end of every configured range at once: (max shift, top pitch, top bin, max duration)
+        evs[rng.randrange(len(evs))] = [ms, hi, bins, md]
+        evs[rng.randrange(len(evs))] = rng.choice([[0, lo, 1, 1], [ms, hi, bins, md]])
     return {'family': 'np', 'cfg': [bins, ms, md, lo, hi], 'events': evs, '_rng': None}
 
 
 def np_labels(rng, case):
     ped = _mods()[3]
-    enc = ped.NotePerformanceEventSequenceEncoderDecoder(*case['cfg'])
+    enc = make_np(*case['cfg'])
     ncs = enc.num_classes
-    case['labels'] = [[rng.choice([0, n - 1, rng.randrange(n)]) for n in ncs] for _ in range(rng.choice([0, 1, 3, 8]))]
+    case['labels'] = [[rng.choice([0, max(n - 1, 0), rr(rng, n)]) for n in ncs] for _ in range(rng.choice([0, 1, 3, 8]))]
     case.pop('_rng', None)
     return case
 
 
 def rand_pr(rng):
-    n = rng.choice([0, 1, 2, 5, 8, 12, 88])
-    evs = []
-    for _ in range(rng.choice([0, 1, 2, 6])):
-        evs.append(sorted(rng.sample(range(n), rng.randrange(0, min(n, 6) + 1))) if n else [])
-    labels = [rng.choice([0, 2 ** n - 1, rng.randrange(2 ** n)]) for _ in range(rng.choice([0, 1, 4]))]
+    n = rng.choice(PR_SIZES)
+    evs = [pr_event(rng, n) for _ in range(rng.choice([0, 1, 2, 6]))]
+    labels = [rng.choice([0, 1 if n else 0, 2 ** n - 1, 2 ** (n - 1) if n else 0, rng.randrange(2 ** n)]) for _ in range(rng.choice([0, 1, 4]))]
     return {'family': 'pr', 'n': n, 'events': evs, 'labels': labels, 'cites': labels}
 
 
@@ -860,19 +949,19 @@ class Comp(object):
             self.wire = 'g ' + spec_wire(self.onehot, self.kind)
             self.evkind = self.onehot[0]
         elif fam == 'key':
-            self.enc = med.KeyMelodyEncoderDecoder(spec[1], spec[2], list(spec[3]), spec[4])
+            self.enc = make_key(spec[1], spec[2], spec[3], spec[4])
             self.wire = 'key %d %d %s %d' % (spec[1], spec[2], wl(spec[3]), spec[4])
             self.evkind = 'int'
         elif fam == 'np':
-            self.enc = ped.NotePerformanceEventSequenceEncoderDecoder(*spec[1:])
+            self.enc = make_np(*spec[1:])
             self.wire = 'np %d %d %d %d %d' % tuple(spec[1:])
             self.evkind = 'np'
         elif fam == 'pr':
-            self.enc = pred.PianorollEncoderDecoder(spec[1])
+            self.enc = make_pr(spec[1])
             self.wire = 'pr %d' % spec[1]
             self.evkind = 'pr'
         elif fam == 'mod':
-            self.enc = ped.ModuloPerformanceEventSequenceEncoderDecoder(spec[1], spec[2])
+            self.enc = make_mod(spec[1], spec[2])
             self.wire = 'mod %d %d' % (spec[1], spec[2])
             self.evkind = 'perf'
         else:
@@ -1217,11 +1306,9 @@ def comp_events(rng, spec, n):
     fam = spec[0]
     if fam == 'np':
         bins, ms, md, lo, hi = spec[1:]
-        return [[rng.choice([0, ms, rng.randrange(0, ms + 1)]), rng.choice([lo, hi, rng.randrange(lo, hi + 1)]),
-                 rng.choice([1, bins, rng.randrange(1, bins + 1)]), rng.choice([1, md, rng.randrange(1, md + 1)])] for _ in range(n)]
+        return [[edgy(rng, 0, ms), edgy(rng, lo, hi), edgy(rng, 1, bins), edgy(rng, 1, md)] for _ in range(n)]
     if fam == 'pr':
-        k = spec[1]
-        return [sorted(rng.sample(range(k), rng.randrange(0, min(k, 6) + 1))) if k else [] for _ in range(n)]
+        return [pr_event(rng, spec[1]) for _ in range(n)]
     alpha, dflt = comp_alphabet(rng, spec)
     ds = spec[2][1] if fam == 'g' and spec[2][0] == 'lb' else spec[3] if fam == 'key' else []
     return rand_seq(rng, alpha, dflt, ds, n)
@@ -1230,11 +1317,11 @@ def comp_events(rng, spec, n):
 def comp_labels(rng, X, m):
     nc = X.enc.num_classes
     if X.fam == 'np':
-        return [[rng.choice([0, n - 1, rng.randrange(n)]) for n in nc] for _ in range(m)]
+        return [[rng.choice([0, max(n - 1, 0), rr(rng, n)]) for n in nc] for _ in range(m)]
     if X.fam == 'pr':
-        return [rng.choice([0, nc - 1, rng.randrange(nc)]) for _ in range(m)]
+        return [rng.choice([0, nc - 1, nc // 2, rr(rng, nc)]) for _ in range(m)]
     nlb = len(X.spec[2][1]) if X.fam == 'g' and X.spec[2][0] == 'lb' else len(X.spec[3]) if X.fam == 'key' else 0
-    return [rng.randrange(nc - nlb, nc) if (nlb and rng.random() < 0.4) else rng.randrange(nc) for _ in range(m)]
+    return [rng.randrange(nc - nlb, nc) if (nlb and nlb < nc and rng.random() < 0.4) else rng.choice([0, nc - 1, rr(rng, nc), rr(rng, nc)]) for _ in range(m)]
 
 
 def rand_comp(rng, role=None):
@@ -1250,7 +1337,7 @@ def rand_comp(rng, role=None):
         if k < 0.6:
             c = rand_key(rng)['cfg']
             return ['key'] + c
-        return ['pr', rng.choice([0, 1, 2, 5, 8, 12])]
+        return ['pr', rng.choice([0, 1, 2, 5, 8, 12, 64, 88])]
     if role == 'steps':
         if k < 0.3:
             return ['mod', rng.choice([0, 0, 1, 8, 32]), rng.choice([1, 2, 10, 100])]
@@ -1272,7 +1359,7 @@ def rand_comp(rng, role=None):
         return ['mod', rng.choice([0, 0, 1, 8, 32, 127]), rng.choice([1, 2, 10, 100, 1000])]
     if k < 0.9:
         return ['np'] + rand_np(rng)['cfg']
-    return ['pr', rng.choice([0, 1, 2, 5, 8, 12, 88])]
+    return ['pr', rng.choice(PR_SIZES)]
 
 
 def rand_cond(rng):
@@ -1376,7 +1463,7 @@ def malformed_requests(rng):
         n = len(raw)
         if raw and rng.random() < 0.6:
             raw[rng.randrange(n)] = rng.choice([-3, 128, mn - 1, mx, 0, 200])
-        enc = med.KeyMelodyEncoderDecoder(mn, mx, list(ds), bits)
+        enc = make_key(mn, mx, ds, bits)
         spec = 'key %d %d %s %d' % (mn, mx, wl(ds), bits)
         for p in {-n - 1, -1, 0, n - 1, n, n + 2, rng.randrange(-3, n + 3)}:
             out.append(('%s pos %s %d' % (spec, wl(raw), p), triple(enc, raw, p, str)))
@@ -1397,7 +1484,7 @@ def malformed_requests(rng):
             evs.append(ev)
         case = {'family': 'np', 'cfg': [bins, ms, md, lo, hi], 'events': evs}
         try:
-            enc = ped.NotePerformanceEventSequenceEncoderDecoder(bins, ms, md, lo, hi)
+            enc = make_np(bins, ms, md, lo, hi)
             ncs = enc.num_classes
             case['cites'] = [[rng.randrange(-1, n + 2) for n in ncs] for _ in range(4)]
             case['labels'] = [[rng.randrange(0, n + 1) for n in ncs] for _ in range(2)]
@@ -1410,7 +1497,7 @@ def malformed_requests(rng):
                 'raw_events': [[rng.randrange(-n - 1, n + 2) for _ in range(rng.choice([1, 2, 3]))] for _ in range(4)] + [[0, 0] if n else []]}
         out += pr_requests(case)
         bins, ms = rng.choice([0, 8]), rng.choice([1, 10, 150])
-        enc = ped.ModuloPerformanceEventSequenceEncoderDecoder(bins, ms)
+        enc = make_mod(bins, ms)
         PE = pl.PerformanceEvent
         raw = [(3, ms + 1), (3, ms), (4, 1), (4, bins + 1), (5, 3), (1, 127)]
         evs = [PE(t, v) for (t, v) in raw]
@@ -1466,6 +1553,27 @@ def hist_of(case):
     if f == 'u':
         sp = comp_spec(case['comp'])
         h = ['helpers:' + (sp[0] if sp[0] != 'g' else 'g-%s-%s' % (sp[1][0], sp[2][0]))]
+    if f == 'np':
+        bins, ms, md, lo, hi = case['cfg']
+        for e in case['events']:
+            h += [t for t, c in (('shift=0', e[0] == 0), ('shift=max_shift', e[0] == ms), ('pitch=min_pitch', e[1] == lo), ('pitch=max_pitch', e[1] == hi),
+                                 ('velocity=1', e[2] == 1), ('velocity=bins', e[2] == bins), ('duration=1', e[3] == 1), ('duration=max', e[3] == md)) if c]
+        h = sorted(set(h)) + ['pitch range ' + ('default 0..127' if (lo, hi) == (0, 127) else 'custom')]
+    if f == 'pr':
+        n = case['n']
+        h += sorted({t for e in case['events'] for t, c in (('key 0', 0 in e), ('top key', n - 1 in e), ('all keys', n and len(e) == n)) if c})
+        h.append('input_size ' + ('>= 64' if n >= 64 else '< 64'))
+    if f == 'key':
+        mn, mx = case['cfg'][0], case['cfg'][1]
+        h += sorted({t for e in case['events'] for t, c in (('pitch=min_note', e == mn), ('pitch=max_note-1', e == mx - 1)) if c})
+    if f == 'g' and case['onehot'][0] == 'mel':
+        mn, mx = case['onehot'][1], case['onehot'][2]
+        h += sorted({t for e in case['events'] for t, c in (('pitch=min_note', e == mn), ('pitch=max_note-1', e == mx - 1)) if c})
+    if f == 'g' and case['onehot'][0] == 'perf':
+        bins, ms, lo, hi = case['onehot'][1:5]
+        h += sorted({t for e in case['events'] for t, c in (('pitch=min_pitch', e[0] in (1, 2) and e[1] == lo), ('pitch=max_pitch', e[0] in (1, 2) and e[1] == hi),
+                                                            ('shift=1', tuple(e) == (3, 1)), ('shift=max_shift', tuple(e) == (3, ms)),
+                                                            ('velocity=1', tuple(e) == (4, 1)), ('velocity=bins', tuple(e) == (4, bins))) if c})
     if 'events' in case:
         n = len(case['events'])
         h.append('len:' + ('0' if n == 0 else '1' if n == 1 else '2-8' if n <= 8 else '9-40' if n <= 40 else '41-100'))
